@@ -25,8 +25,10 @@ func c14Expect(p *spec.C14Case) (class, detail string) {
 	protoOK := contains(allowed, p.Proto)
 	tls := func() string {
 		switch p.ServerTLS + "/" + p.ClientTLS {
-		case "none/none", "none/auto", "static/static", "ignorecert/none":
-			return "MUST_WORK"
+		case "none/none", "none/auto", "static/static", "ignorecert/none", "none/auto+static":
+			return "MUST_WORK" // (auto+static on a launch: AutoMTLS takes the place of the static config)
+		case "static/auto+static":
+			return "EITHER_BUT_CLEAN"
 		case "ignorecert/auto":
 			// the host asked for mutual TLS and the plugin serves plain text: working would be a silent downgrade
 			return "MUST_NOT_WORK"
@@ -39,6 +41,14 @@ func c14Expect(p *spec.C14Case) (class, detail string) {
 		switch {
 		case p.Mux:
 			return "MUST_FAIL_AT_START", "option:mux+reattach"
+		case p.ClientTLS == "auto+static":
+			if !protoOK {
+				return "MUST_NOT_WORK", "protocol-not-allowed"
+			}
+			if p.ServerTLS == "none" {
+				return "MUST_NOT_WORK", "tls" // the host configured TLS: plain text would be a silent downgrade
+			}
+			return "EITHER_BUT_CLEAN", "AutoMTLS+reattach is documented as unsupported"
 		case p.ClientTLS == "auto":
 			return "EITHER_BUT_CLEAN", "AutoMTLS+reattach is documented as unsupported"
 		case !protoOK:
@@ -76,6 +86,14 @@ func c14Gen(r *rand.Rand, tier string) []spec.Case {
 	add := func(c spec.C14Case) {
 		cl, det := c14Expect(&c)
 		out = append(out, spec.Case{Kind: cl + ":" + det, P: spec.MustJSON(c)})
+	}
+	// hosts that set AutoMTLS and a static TLSConfig together
+	for _, proto := range []string{"netrpc", "grpc"} {
+		for _, st := range []string{"none", "static"} {
+			for _, la := range []string{"reattach", "cmd"} {
+				add(spec.C14Case{Proto: proto, ServerTLS: st, ClientTLS: "auto+static", Launch: la, Allowed: []string{"netrpc", "grpc"}})
+			}
+		}
 	}
 	// a plugin that ignores PLUGIN_CLIENT_CERT, against hosts with and without AutoMTLS
 	for _, proto := range []string{"netrpc", "grpc"} {
